@@ -266,6 +266,23 @@ func c11Servers() []c11Server {
 				Objects: []caldav.CalendarObject{{Path: "/u/c/k1/a0.ics", Data: harness.SampleCalendar("0", "zero")}, cobjs[0]}}}
 		}, Resources: bf, Universe: calUniverse})
 	}
+	{
+		// mounted under a prefix, every segment spelled with the prefix's own characters
+		pcup := hrefIs("/dav/ada/")
+		pres := []resExpect{
+			{Path: "/dav/", Has: map[qname]valueCheck{dav("current-user-principal"): pcup, dav("resourcetype"): nonEmpty}},
+			{Path: "/dav/ada/", Parent: "/dav/", Has: map[qname]valueCheck{dav("current-user-principal"): pcup, {nsCal, "calendar-home-set"}: hrefIs("/dav/ada/dd/"), dav("resourcetype"): nonEmpty}},
+			{Path: "/dav/ada/dd/", Parent: "/dav/ada/", Has: map[qname]valueCheck{dav("current-user-principal"): pcup, dav("resourcetype"): typesAre(dav("collection"))}},
+			{Path: "/dav/ada/dd/av/", Parent: "/dav/ada/dd/", Optional: map[qname]bool{{nsCal, "calendar-description"}: true}, Has: map[qname]valueCheck{
+				dav("current-user-principal"): pcup, dav("resourcetype"): typesAre(dav("collection"), qname{nsCal, "calendar"}), {nsCal, "supported-calendar-data"}: nonEmpty, {nsCal, "supported-calendar-component-set"}: nonEmpty, dav("displayname"): textIs("av")}},
+			{Path: "/dav/ada/dd/av/a.ics", Parent: "/dav/ada/dd/av/", Has: map[qname]valueCheck{
+				dav("current-user-principal"): pcup, dav("getcontenttype"): textIs("text/calendar"), {nsCal, "calendar-data"}: textHas("SUMMARY:pfx"), dav("resourcetype"): typesAre()}},
+		}
+		out = append(out, c11Server{Name: "caldav-prefix", Handler: func() http.Handler {
+			return &caldav.Handler{Prefix: "/dav", Backend: &harness.CalBackend{Principal: "/dav/ada/", HomeSet: "/dav/ada/dd/", Calendars: []caldav.Calendar{{Path: "/dav/ada/dd/av/", Name: "av"}},
+				Objects: []caldav.CalendarObject{{Path: "/dav/ada/dd/av/a.ics", Data: harness.SampleCalendar("p", "pfx")}}}}
+		}, Resources: pres, Universe: calUniverse})
+	}
 	out = append(out, c11Server{Name: "caldav", Handler: func() http.Handler {
 		return &caldav.Handler{Backend: &harness.CalBackend{Principal: "/u/", HomeSet: "/u/c/", Calendars: cals, Objects: cobjs}}
 	}, Resources: cres, Universe: []qname{dav("resourcetype"), dav("current-user-principal"), {nsCal, "calendar-home-set"}, dav("displayname"), {nsCal, "max-resource-size"}, dav("getetag"), dav("unknown-prop-x"), {"urn:foreign", "color"}, {"urn:foreign", "getetag"}}})
@@ -345,11 +362,12 @@ type c11Case struct {
 	Depth  string  `json:"depth"` // "-" absent
 	Form   string  `json:"form"`  // empty | allprop | propname | none | prop
 	Names  []qname `json:"names,omitempty"`
+	Slash  bool    `json:"trailing_slash,omitempty"` // the collection is addressed with a trailing slash added
 }
 
 func c11Body(c c11Case) string {
 	switch c.Form {
-	case "empty":
+	case "empty", "empty-unannounced", "empty-xml-type":
 		return ""
 	case "allprop":
 		return pfAllprop
@@ -378,11 +396,17 @@ func c11Body(c c11Case) string {
 
 func c11Judge(sv c11Server, c c11Case) (clause, detail string) {
 	q := harness.Req{Method: "PROPFIND", Path: c.Target, Header: map[string]string{}, Body: c11Body(c)}
+	if c.Slash {
+		q.Path += "/"
+	}
 	if c.Depth != "-" {
 		q.Header["Depth"] = c.Depth
 	}
 	if q.Body != "" {
 		q.Header["Content-Type"] = "application/xml"
+	}
+	if c.Form == "empty-unannounced" {
+		q.Chunked = true // an empty body whose length is not announced is an empty body
 	}
 	resp := harness.Serve(sv.Handler(), q)
 	if resp.Panic != "" {
@@ -463,7 +487,7 @@ func c11Judge(sv c11Server, c c11Case) (clause, detail string) {
 				if !has && !e.Optional[n] {
 					return "propname-lists-unavailable", n.String()
 				}
-			case "allprop", "empty":
+			case "allprop", "empty", "empty-unannounced":
 				if !has {
 					if e.Optional[n] {
 						continue
@@ -565,13 +589,20 @@ func init() {
 			}
 			for _, res := range sv.Resources {
 				for _, d := range []string{"-", "0", "1", "infinity"} {
-					for _, f := range []string{"empty", "allprop", "propname", "none", "none-include", "none-empty-include", "none-unknown-child", "none-foreign-allprop"} {
+					for _, f := range []string{"empty", "empty-unannounced", "allprop", "propname", "none", "none-include", "none-empty-include", "none-unknown-child", "none-foreign-allprop"} {
 						cases = append(cases, c11Case{Server: sv.Name, Target: res.Path, Depth: d, Form: f})
 						svIdx = append(svIdx, si)
 					}
 					for _, ss := range subsets {
 						cases = append(cases, c11Case{Server: sv.Name, Target: res.Path, Depth: d, Form: "prop", Names: ss})
 						svIdx = append(svIdx, si)
+					}
+					// a collection of the file server addressed in its trailing-slash spelling
+					if sv.Name == "webdav-memfs" && res.Path != "/" && res.Has[dav("resourcetype")] != nil && !strings.HasSuffix(res.Path, "/") && res.Optional[dav("getetag")] {
+						for _, f := range []string{"empty", "allprop", "propname"} {
+							cases = append(cases, c11Case{Server: sv.Name, Target: res.Path, Depth: d, Form: f, Slash: true})
+							svIdx = append(svIdx, si)
+						}
 					}
 				}
 			}
@@ -596,7 +627,7 @@ func init() {
 					dep = ".depth=" + c.Depth
 				}
 				sig := fmt.Sprintf("C11/%s/%s.%s%s.form=%s", clause, sv.Name, c11Level(sv, c.Target), dep, c.Form)
-				if clause == "scope-missing-resource" && c.Target == "/" && c.Depth != "0" && strings.Contains(detail, `got [/]`) {
+				if clause == "scope-missing-resource" && c11Level(sv, c.Target) == "level0" && c.Depth != "0" && strings.Contains(detail, "got ["+c.Target+"]") {
 					// one root cause: the discovery root answers for itself only, whatever the Depth
 					sig = fmt.Sprintf("C11/scope-missing-resource/%s.root-answers-depth-0-only", strings.SplitN(sv.Name, "-", 2)[0])
 				}
